@@ -6,7 +6,7 @@
 (* zones (slot 1 / slot 2); every Zoned result is reported as              *)
 (*   [st, sec, ns, off, civil]                                             *)
 (* and is checked for well-formedness wherever it appears.                 *)
-EXTENDS Zoned, CivilOps, Rfc3339, TLC, Json, IOUtils
+EXTENDS SpanRel, Rfc3339, TLC, Json, IOUtils
 
 Rec == ndJsonDeserialize(IOEnv.TRACE)
 VARIABLES l, z1, z2
@@ -186,6 +186,84 @@ ZTextWhy(r) ==
      ELSE IF r.rename # 1 THEN "re-parse yields a different time zone"
      ELSE ""
 
+\* ---- C11: spans relative to a reference (SpanRel.tla) ----------------------------------------
+\* the balanced form of n uniform nanoseconds with largest unit L fits the span limits
+NsFits(n, L) ==
+  IF L <= 5 THEN HoursFit(n, L) /\ SpanInLimits(ExpTimeSpan(n, L))
+  ELSE LET a == BalanceAbs(BAbs(n), 6) IN BFitsInt(a[1]) /\ BToInt(a[1]) <= LimD
+
+UnitLimit(k) == CASE k = 9 -> BOf(LimY) [] k = 8 -> BOf(LimMo) [] k = 7 -> BOf(LimW) [] k = 6 -> BOf(LimD) [] k = 5 -> BOf(LimH)
+                  [] k = 4 -> LimMi [] k = 3 -> LimS [] k = 2 -> LimMs [] k = 1 -> LimUs [] k = 0 -> LimNs
+
+SpRoundWhy(r) ==
+  LET z == ZoneOf(1)
+      S == UnitRank(r.smallest)  L == UnitRank(r.largest)
+      g == RoundGoal(z, r.ref, r.span, S, L, r.inc, r.mode, r.mf)
+      out == r.res.span
+      reach == IF RSettled(z, r.ref, out) THEN RAdd(z, r.ref, out) ELSE <<>>
+  IN
+  IF r.res.st = "panic" THEN "Span::round panicked"
+  ELSE IF g.st = "skip" THEN ""
+  ELSE IF g.st = "witness" THEN "harness witness inconsistent (Span::round)"
+  ELSE IF g.st = "err" THEN (IF r.res.st = "err" THEN "" ELSE "Span::round accepted a request it must refuse")
+  ELSE IF r.res.st = "err"
+  THEN (IF g.st = "ns" /\ ~NsFits(g.n, L) THEN ""
+        ELSE IF g.st = "weak" THEN ""
+        ELSE IF g.st = "set" /\ g.errok THEN ""
+        ELSE IF g.st = "set" /\ (\E p \in g.ps : LET u == RUntil(z, r.ref, p, L) IN ~u.ok \/ ~SpanInLimits(u.sp)) THEN ""
+        ELSE IF g.st = "pos" /\ (LET u == RUntil(z, r.ref, g.p, L) IN ~u.ok \/ ~SpanInLimits(u.sp)) THEN ""
+        ELSE "Span::round refused a representable result")
+  ELSE IF ~SpanInLimits(out) THEN "Span::round returned a span beyond the unit limits"
+  \* (without a reference the total is a multiple of the increment; its days need not be when weeks are the largest unit)
+  ELSE IF ~ShapeOk(out, S, L, r.inc, r.q) /\ ~(g.st = "ns" /\ ShapeOk(out, S, L, BZero, BZero) /\ SGet(out, S) = BZero)
+          /\ ~(g.st = "weak" /\ S >= 6 /\ OneSign(out) /\ \A k \in 0..9 : (k > L \/ k < S) => SGet(out, k) = BZero)
+          /\ ~(g.st = "ns" /\ S = 6 /\ L = 7 /\ (\A k \in 0..5 : SGet(out, k) = BZero) /\ SGet(out, 8) = BZero /\ SGet(out, 9) = BZero /\ OneSign(out))
+       THEN "Span::round: units outside smallest..largest, mixed signs, or not a multiple of the increment"
+  ELSE IF g.st = "ns" THEN (IF UniformNs(out) = g.n THEN "" ELSE "Span::round (no reference): not the mode's multiple of the increment")
+  ELSE IF ~RSettled(z, r.ref, out) THEN ""
+  ELSE IF reach = <<>> THEN "reference + rounded span is out of range"
+  ELSE IF g.st = "pos"
+       THEN (IF reach = g.p THEN "" ELSE IF S = 0 /\ r.inc = BOf(1) THEN "balancing changed reference + span" ELSE "Span::round: reference + result is not the neighbour the mode prescribes")
+  ELSE IF g.st = "set"
+       \* (a result that reaches reference + span itself is exact, whatever balanced form it has:
+       \*  2024-02-29 + 102y and 2024-02-29 + 101y 11mo 30d are the same day)
+       THEN (IF reach \in g.ps \/ reach = RAdd(z, r.ref, r.span) THEN "" ELSE "Span::round: reference + result is not the neighbour the mode prescribes" \o (IF "DEBUG" \in DOMAIN IOEnv THEN " want=" \o ToString(g.ps) \o " got=" \o ToString(reach) \o " t0=" \o ToString(RAdd(z, r.ref, r.span)) ELSE ""))
+  ELSE \* weak
+       LET d == Dist(g.t0, reach)  two == BMulSmall(BAbs(d), 2) IN
+       \* (a zoned day whose length is no multiple of the increment is re-rounded from the day boundary,
+       \*  which can add up to one more increment; a calendar step is up to 25 hours per day long)
+       IF ~BLt(BAbs(d), BAdd(g.incNs, g.slack)) THEN "Span::round: result further than one increment from reference + span"
+       ELSE IF g.sgn = 0 /\ d # BZero THEN "Span::round of a zero distance moved"
+       \* (steps of days / weeks inside a larger unit: balancing to the month boundary can land on either side)
+       ELSE IF S >= 6 THEN ""
+       ELSE CASE r.mode = "ceil"   -> (IF d.s >= 0 THEN "" ELSE "Span::round(ceil) went down")
+              [] r.mode = "floor"  -> (IF d.s <= 0 THEN "" ELSE "Span::round(floor) went up")
+              [] r.mode = "expand" -> (IF d.s * g.sgn >= 0 THEN "" ELSE "Span::round(expand) went toward zero")
+              [] r.mode = "trunc"  -> (IF d.s * g.sgn <= 0 THEN "" ELSE "Span::round(trunc) went away from zero")
+              [] OTHER             -> (IF BLe(two, BAdd(g.incNs, BMulSmall(g.slack, 2))) THEN "" ELSE "Span::round(half-*) is not a nearest multiple")
+
+SpTotalWhy(r) ==
+  LET z == ZoneOf(1)  g == TotalGoal(z, r.ref, r.span, UnitRank(r.unit)) IN
+  IF r.res.st = "panic" THEN "Span::total panicked"
+  ELSE IF g.st = "skip" THEN ""
+  ELSE IF g.st = "err" THEN (IF r.res.st = "err" THEN "" ELSE "Span::total accepted a request it must refuse")
+  ELSE IF g.st = "maybe-err" THEN ""
+  \* the count does not fit the unit's own limit in a Span: the intermediate balanced span cannot exist
+  ELSE IF r.res.st = "err" /\ ~BLe(BAbs(g.num), BMul(g.den, UnitLimit(UnitRank(r.unit)))) THEN ""
+  ELSE IF r.res.st = "err" THEN "Span::total refused"
+  ELSE IF r.res.f.kind # "finite" THEN "Span::total is not a finite number"
+  ELSE IF ~FloatNear(r.res.f, g.num, g.den) THEN "Span::total is not the exact count of the unit"
+  ELSE ""
+
+SpCmpWhy(r) ==
+  LET z == ZoneOf(1)  g == CompareGoal(z, r.ref, r.a, r.b) IN
+  IF r.res.st = "panic" THEN "Span::compare panicked"
+  ELSE IF g.st = "skip" THEN ""
+  ELSE IF g.st = "err" THEN (IF r.res.st = "err" THEN "" ELSE "Span::compare accepted a request it must refuse")
+  ELSE IF r.res.st = "err" THEN "Span::compare refused"
+  ELSE IF r.res.o # g.o THEN "Span::compare does not order the spans as reference + a and reference + b"
+  ELSE ""
+
 Why(r) ==
   CASE r.op = "zone"    -> ""
     [] r.op = "z_text"  -> ZTextWhy(r)
@@ -195,6 +273,9 @@ Why(r) ==
     [] r.op = "z_until" -> ZUntilWhy(r)
     [] r.op = "z_round" -> ZRoundWhy(r)
     [] r.op = "z_step"  -> ZStepWhy(r)
+    [] r.op = "sp_round" -> SpRoundWhy(r)
+    [] r.op = "sp_total" -> SpTotalWhy(r)
+    [] r.op = "sp_cmp"   -> SpCmpWhy(r)
     [] OTHER            -> "unknown op"
 
 Init == l = 1 /\ z1 = 0 /\ z2 = 0
